@@ -664,3 +664,84 @@ Proof.
     + intros E0; discriminate E0.
     + intros i0 c0 u0 Hc0 E0. inv E0. congruence.
 Qed.
+
+Lemma upd_same_id {A} (l : list A) t x : nth_error l t = Some x -> upd l t x = l.
+Proof.
+  revert t. induction l as [|a l IH]; intros [|t] H; cbn in *; try discriminate; [inv H; reflexivity|].
+  now rewrite IH.
+Qed.
+
+Lemma Tok_step g a g' : Inv (base g) -> GRel g -> Tok g -> gstep g a = Some g' -> Tok g'.
+Proof.
+  intros I GR TK H. destruct a as [t e].
+  destruct (gstep_inv _ _ _ _ H) as (gt & Hgt & Hcase). clear H.
+  assert (Hex : exists th, get_thread (base g) t = Some th).
+  { unfold get_thread. destruct (nth_error (thr (base g)) t) eqn:E; [eauto|].
+    apply nth_error_None in E. assert (nth_error (gth g) t <> None) by congruence.
+    apply nth_error_Some in H. rewrite (gr_len _ GR) in H. lia. }
+  destruct Hex as [th Hth]. destruct (gr_thr _ GR _ _ _ Hgt Hth) as [Hg Hw].
+  pose proof (i1_thr _ (inv_1 _ I) _ _ Hth) as T.
+  (* call / return: the base state changes only in [t]'s program point *)
+  assert (Hcr : forall eb s' gt' th', fstep (base g) (t, eb) = Some s' ->
+            s' = set_thread (base g) t th' -> own th' = own th -> cbs th' = cbs th ->
+            (forall st, resp_th (base g) st t gt th -> resp_th s' st t gt' th') ->
+            Tok (set_gth (set_base g s') t gt')).
+  { intros eb s' gt' th' F -> Eo Ec Hself st Hv Hf Hq. cbn [base set_base set_gth gth] in *. gts.
+    destruct (TK st Hv Hf Hq) as (z & gz & thz & A & B & C).
+    destruct (Nat.eq_dec z t) as [->|Hz].
+    - rewrite Hgt in A. inv A. rewrite Hth in B. inv B.
+      exists t, gt', th'. cbn [base set_base set_gth gth].
+      split; [apply (nth_error_upd_same _ _ _ _ Hgt)|]. split; [apply get_same; congruence|]. apply Hself. exact C.
+    - exists z, gz, thz. cbn [base set_base set_gth gth].
+      split; [rewrite nth_error_upd_other by exact Hz; exact A|]. split; [rewrite get_other by exact Hz; exact B|].
+      unfold resp_th in *. destruct C as [[C1 C2]|C]; [|right; exact C].
+      left. split; [exact C1|]. intros S [X|X]; apply (C2 S); [left|right; exact X].
+      unfold cqcount in *. gts. exact X. }
+  destruct e.
+  { (* call *)
+    destruct Hcase as (Hp & a & r & o & s' & Hpr & Ha & F & ->).
+    pose proof (step_srel _ _ _ _ _ Hth (t1_pc _ T) F) as R.
+    unfold grel in Hg. rewrite Hp in Hg. destruct Hg as [Hm Ho].
+    inversion R; subst; clear R;
+      (eapply Hcr; [exact F|reflexivity|reflexivity|reflexivity|]);
+      intros st0 Hr; unfold resp_th, onway, lock_pc in Hr |- *; rewrite Hm, Hp in Hr; cbn [pend prog] in *;
+      dsj; pc_inj; try discriminate; gts;
+      destruct a; cbn in Ha; inv Ha;
+      match goal with Hh : head_mode (prog gt) = MFe |- _ => rewrite Hpr in Hh; try discriminate Hh end;
+      right; right; right; eauto 10. }
+  - (* tick *)
+    destruct Hcase as (s' & F & ->). eapply Tok_base_step; eauto.
+  - (* cbtick *)
+    destruct Hcase as (s' & F & ->). eapply Tok_base_step; eauto.
+  - (* ret *)
+    destruct Hcase as (Hp & s' & F & ->).
+    pose proof (step_srel _ _ _ _ _ Hth (t1_pc _ T) F) as R.
+    inversion R; subst; clear R.
+    eapply Hcr; [exact F|reflexivity|reflexivity|reflexivity|].
+    intros st0 Hr. unfold resp_th, onway, lock_pc in Hr |- *.
+    match goal with Hm : main th = Done _ |- _ => rewrite Hm, Hp in Hr end. cbn [pend prog] in *.
+    dsj; pc_inj; try discriminate. right; right; left. split; [reflexivity|].
+    unfold wfp in Hw. match goal with Hpr : prog gt = _ |- _ => rewrite Hpr in Hw |- * end.
+    cbn [head_mode disc tl] in *. apply andb_prop in Hw. destruct Hw as [_ Hw]. apply disc_MFe_head. exact Hw.
+  - (* local *)
+    destruct Hcase as (Hp & Hloc).
+    assert (Hb : forall g1, base g1 = base g -> gth g1 = gth g -> forall r,
+              (exists x, prog gt = x :: r /\ head_mode (prog gt) = MFe /\ disc MFe r = true) ->
+              Tok (set_gth g1 t {| prog := r; pend := false |})).
+    { intros g1 E1 E2 r (x & Hpr & Hh & Hd) st Hv Hf Hq. cbn [base set_gth gth] in *. rewrite E1 in *.
+      destruct (TK st Hv Hf Hq) as (z & gz & thz & A & B & C).
+      destruct (Nat.eq_dec z t) as [->|Hz].
+      - rewrite Hgt in A. inv A. rewrite Hth in B. inv B.
+        exists t, {| prog := r; pend := false |}, thz. cbn [base set_gth gth]. rewrite E1, E2.
+        split; [apply (nth_error_upd_same _ _ _ _ Hgt)|]. split; [exact Hth|].
+        unfold resp_th in C |- *. cbn [pend prog]. rewrite Hp in C.
+        destruct C as [C|[C|[C|C]]]; [left; exact C|dsj; discriminate| |dsj; discriminate].
+        right; right; left. split; [reflexivity|apply disc_MFe_head; exact Hd].
+      - exists z, gz, thz. cbn [base set_gth gth]. rewrite E1, E2.
+        split; [rewrite nth_error_upd_other by exact Hz; exact A|]. split; [exact B|exact C]. }
+    unfold wfp in Hw.
+    destruct Hloc as [(v & r & Hpr & ->)|(r & Hpr & ->)]; rewrite Hpr in Hw; cbn [head_mode disc] in Hw.
+    + apply Hb; [reflexivity|reflexivity|]. exists (APut v). rewrite Hpr. auto.
+    + apply Hb; [unfold do_take; destruct (slot g); reflexivity|unfold do_take; destruct (slot g); reflexivity|].
+      exists ATake. rewrite Hpr. auto.
+Qed.
